@@ -70,7 +70,7 @@ Qed.
 Lemma core_rows_len : forall d q,
   Forall (fun kr => length (snd kr) = length (col_kinds q)) (core_rows d (orm_to_core d q)).
 Proof.
-  intros d q. destruct q as [c|k|outer t sp sc m|outer sc sp|sc|a b]; cbn [orm_to_core core_rows col_kinds].
+  intros d q. destruct q as [c|k|outer t sp sc m|outer sc sp|sc|a b|c|vals sc]; cbn [orm_to_core core_rows col_kinds].
   - exact (sel_rows_len d (sel_p (tr_pcrit d 0 c) [ECol 0 ColId])).
   - exact (sel_rows_len d {| s_tab := TabC; s_alias := 0; s_joins := []; s_where := tr_ccrit 0 k;
                              s_cols := [ECol 0 ColId]; s_order := [ECol 0 ColId] |}).
@@ -88,6 +88,8 @@ Proof.
       - pose proof (sel_rows_len d (sel_p (tr_pcrit d 0 b) [ECol 0 ColId; ECol 0 ColX])) as H.
         rewrite Forall_forall in H. exact (H kr Hin). }
     destruct r as [|x [|y r]]; try discriminate. reflexivity.
+  - exact (sel_rows_len d (sel_n (tr_ncrit 0 c))).
+  - pose proof (sel_rows_len d (sel_sibs sc)) as H. destruct vals; exact H.
 Qed.
 
 Lemma core_exec_len : forall d q,
@@ -110,6 +112,38 @@ Theorem count_exists_agree : forall d q,
 Proof.
   intros d q. unfold orm_count, orm_exists, orm_exec. rewrite assemble_length.
   split; [reflexivity|]. destruct (core_exec d (orm_to_core d q)); reflexivity.
+Qed.
+
+(* the same with LIMIT / OFFSET on the statement *)
+Lemma slice_forall : forall (A : Type) (P : A -> Prop) off lim (l : list A), Forall P l -> Forall P (slice off lim l).
+Proof.
+  intros A P off lim l H. rewrite Forall_forall in *. unfold slice.
+  destruct lim as [n|]; intros x Hx.
+  - apply firstn_In in Hx. apply H. revert Hx. apply (In_skipn).
+  - apply H. revert Hx. apply In_skipn.
+Qed.
+
+Theorem orm_rows_biject_core_rows_sl : forall d q off lim,
+  map (map item_val) (orm_exec_sl d q off lim false) = slice off lim (core_exec d (orm_to_core d q)).
+Proof. intros. unfold orm_exec_sl. apply assemble_val. apply slice_forall. apply core_exec_len. Qed.
+
+Theorem orm_rows_meaning_sl : forall d q off lim, query_ok d q = true ->
+  map (map item_val) (orm_exec_sl d q off lim false) = slice off lim (meaning d q).
+Proof. intros d q off lim H. rewrite orm_rows_biject_core_rows_sl, (core_exec_meaning d q H). reflexivity. Qed.
+
+Theorem count_exists_agree_sl : forall d q off lim,
+  orm_count_sl d q off lim = length (orm_exec_sl d q off lim false) /\
+  orm_exists_sl d q off lim = negb (Nat.eqb (length (orm_exec_sl d q off lim false)) 0).
+Proof.
+  intros. unfold orm_count_sl, orm_exists_sl, orm_exec_sl. rewrite assemble_length.
+  split; [reflexivity|]. destruct (slice off lim (core_exec d (orm_to_core d q))); reflexivity.
+Qed.
+
+Theorem legacy_rows_le_count_sl : forall d q off lim,
+  length (orm_exec_sl d q off lim true) <= orm_count_sl d q off lim.
+Proof.
+  intros. destruct (count_exists_agree_sl d q off lim) as [Hc _]. rewrite Hc.
+  unfold orm_exec_sl. apply unique_items_length.
 Qed.
 
 (* legacy Query: Result.unique() drops repeated rows; harmless exactly when there is nothing to drop *)
